@@ -99,6 +99,13 @@ type script struct {
 	// on the same mux from the handler's goroutine (shared buffer pools).
 	Interfere bool
 	Limit     int
+	// Asset: download handlers serving long-lived memory: "subslice" sends
+	// sub-slices of env.asset, "reuse" copies every chunk into one buffer the
+	// handler keeps for all its chunks.
+	Asset string
+	// Duplex: Reply is pushed by a second goroutine while the handler's main
+	// loop is receiving (genuinely full-duplex handler).
+	Duplex bool
 }
 
 // rec is the handler-side log of one stream. All access goes through mu.
@@ -157,6 +164,8 @@ type env struct {
 	// optMuxes: default-limit muxes built with further options (server
 	// option dimension of the socket lanes), keyed by option class
 	optMuxes map[string]*larking.Mux
+	// long-lived handler memory (Asset lanes) and its pristine copy
+	asset, assetCopy, reuseBuf []byte
 
 	mu      sync.Mutex
 	recs    map[string]*rec
@@ -190,6 +199,16 @@ func newEnv(r *mon.Run, limits []int) (*env, error) {
 		}
 		e.muxes[L] = mux
 	}
+	e.asset = make([]byte, 8192)
+	x := uint32(2463534242)
+	for i := range e.asset {
+		x ^= x << 13
+		x ^= x >> 17
+		x ^= x << 5
+		e.asset[i] = byte(x >> 11)
+	}
+	e.assetCopy = append([]byte(nil), e.asset...)
+	e.reuseBuf = make([]byte, 4096)
 	e.optMuxes = map[string]*larking.Mux{}
 	for opt, d := range map[string]time.Duration{"conn-timeout-small": connTimeoutSmall, "conn-timeout-large": time.Hour} {
 		mux, err := e.newMux(larking.ConnectionTimeoutOption(d))
@@ -414,6 +433,24 @@ func (e *env) Stream(md protoreflect.MethodDescriptor, ss grpc.ServerStream) (re
 	// receive phase
 	var recvErr error
 	var echoErr error
+	var pushDone chan error
+	if sc.Duplex && md.IsStreamingServer() {
+		pushDone = make(chan error, 1)
+		go func() {
+			for _, b := range sc.Reply {
+				if err := send(b); err != nil {
+					pushDone <- err
+					return
+				}
+			}
+			pushDone <- nil
+		}()
+		defer func() {
+			if pushDone != nil {
+				<-pushDone
+			}
+		}()
+	}
 	if md.IsStreamingClient() {
 		n := 0
 		for {
@@ -476,6 +513,47 @@ func (e *env) Stream(md protoreflect.MethodDescriptor, ss grpc.ServerStream) (re
 	}
 
 	// send phase
+	if pushDone != nil {
+		err := <-pushDone
+		pushDone = nil
+		if err != nil {
+			return err
+		}
+		return final()
+	}
+	if sc.Asset != "" {
+		// chunk sizes come from Reply; the bytes from the long-lived asset
+		off := 0
+		for _, b := range sc.Reply {
+			m := vschema.NewMsg(md.Output())
+			if err := proto.Unmarshal(b, m); err != nil {
+				return err
+			}
+			n := len(getField(m, "data").Bytes())
+			if off+n > len(e.asset) || n > len(e.reuseBuf) {
+				return status.Error(codes.OutOfRange, "verif: asset too small")
+			}
+			piece := e.asset[off : off+n]
+			if sc.Asset == "reuse" {
+				copy(e.reuseBuf, piece)
+				piece = e.reuseBuf[:n]
+			}
+			off += n
+			if n > 0 {
+				setField(m, "data", protoreflect.ValueOfBytes(piece))
+			}
+			if err := ss.SendMsg(m); err != nil {
+				rc.mu.Lock()
+				rc.sendErr = err
+				rc.mu.Unlock()
+				return err
+			}
+			rc.mu.Lock()
+			rc.sent = append(rc.sent, proto.Clone(m))
+			rc.mu.Unlock()
+		}
+		return final()
+	}
 	if sc.Writer {
 		first := vschema.NewMsg(md.Output())
 		if len(sc.Reply) > 0 {
